@@ -421,6 +421,59 @@ func runC10(r *engine.Run) {
 		}
 	})
 
+	// join-accept (encrypted form) and proprietary frames built around a caller's sub-slice
+	jOps := []string{"DecryptJoinAcceptPayload", "MarshalBinary", "MarshalText", "MarshalJSON", "ValidateDownlinkJoinMIC", "SetDownlinkJoinMIC", "ValidateUplinkJoinMIC"}
+	jLens := []int{0, 5, 12, 16, 28}
+	jSpare := []int{0, 1, 3, 4, 40}
+	spJ := (&engine.Space{}).Dim("op", len(jOps)).Dim("MType{join-accept,proprietary}", 2).Dim("payload length", len(jLens)).Dim("spare capacity", len(jSpare))
+	r.PartDims("guarded-join-buffers", spJ.Desc(), spJ.N(), func(c *engine.Case) {
+		var ch [4]int
+		spJ.Decode(c.Index, ch[:])
+		n, spare := jLens[ch[2]], jSpare[ch[3]]
+		arena := make([]byte, 8+n+spare+8)
+		for i := range arena {
+			arena[i] = 0x3C ^ byte(i)
+		}
+		copy(arena[8:], fillBytes(n, 0x51))
+		before := append([]byte(nil), arena...)
+		mt := lorawan.JoinAccept
+		if ch[1] == 1 {
+			mt = lorawan.Proprietary
+		}
+		p := lorawan.PHYPayload{MHDR: lorawan.MHDR{MType: mt}, MIC: lorawan.MIC{9, 8, 7, 6}, MACPayload: &lorawan.DataPayload{Bytes: arena[8 : 8+n : 8+n+spare]}}
+		k := keyOf(c05KeyA)
+		op := jOps[ch[0]]
+		switch op {
+		case "DecryptJoinAcceptPayload":
+			p.DecryptJoinAcceptPayload(k)
+		case "MarshalBinary":
+			p.MarshalBinary()
+		case "MarshalText":
+			p.MarshalText()
+		case "MarshalJSON":
+			p.MarshalJSON()
+		case "ValidateDownlinkJoinMIC":
+			p.ValidateDownlinkJoinMIC(lorawan.JoinRequestType, lorawan.EUI64{1}, 2, k)
+		case "SetDownlinkJoinMIC":
+			p.SetDownlinkJoinMIC(lorawan.JoinRequestType, lorawan.EUI64{1}, 2, k)
+		case "ValidateUplinkJoinMIC":
+			p.ValidateUplinkJoinMIC(k)
+		}
+		c.NonTrivial()
+		for q := range arena {
+			if arena[q] != before[q] {
+				key := "guarded-buffers/" + op + "/caller-buffer-modified"
+				where := "inside the caller's slice"
+				if q < 8 || q >= 8+n {
+					key = "guarded-buffers/" + op + "/write-outside-slice"
+					where = fmt.Sprintf("outside the slice (offset %d relative to its start, length %d)", q-8, n)
+				}
+				c.Fail(key, fmt.Sprintf("%s on a %v frame whose payload is a %d-byte sub-slice with %d bytes of spare capacity wrote %s", op, mt, n, spare, where), nil)
+				break
+			}
+		}
+	})
+
 	// ---- (c) reuse histories
 	types := c10ReuseTypes()
 	r.Extra("reuse_types", len(types))
